@@ -132,9 +132,9 @@ func (queue *PacketQueue) IsEOM() bool {
 
 // Read satisfies the io.Reader interface.
 func (queue *PacketQueue) Read(p []byte) (int, error) {
-	var err error
-	p, err = queue.Bytes(len(p))
-	return len(p), err
+	bs, err := queue.Bytes(len(p))
+	copy(p, bs)
+	return len(bs), err
 }
 
 // Write satisfies the io.Writer interface.
